@@ -147,6 +147,10 @@ func (fx *FX) runTop() (errmsg string) {
 		}
 		for _, cl := range c.FreeReq {
 			fx.assume(True, fx.evalBool(env, cl.Expr))
+			if fn.Parent() == nil {
+				// on a plain function: an assumed precondition (no call site checks it)
+				fx.usedAssumed["free-requires of func "+c.Name+lbl(cl)+" (assumed at entry, not checked at call sites): "+cl.Text] = true
+			}
 		}
 		for _, cl := range c.ClosureInv {
 			fx.assume(True, fx.evalBool(env, cl.Expr))
@@ -360,7 +364,10 @@ func (fx *FX) frameObligations(entry *State, x exitPoint) {
 	}
 	var keys []string
 	for k := range fx.knownComps {
-		if star && !excluded[k] {
+		// "*" does not cover ghost variables: they are only changed when named (the same rule the
+		// havoc at call sites follows; a ghost changed under "*" alone would make its postconditions
+		// contradict the caller's unchanged value)
+		if star && !excluded[k] && (!strings.HasPrefix(k, "G:") || fx.e.envGhost(k)) {
 			continue
 		}
 		keys = append(keys, k)
